@@ -1,4 +1,4 @@
-add("C18", "checks/c18_errquery.c", ["default-asan", "heap-asan", "default-plain", "usererr-asan", "c89-plain"], ["default-asan", "heap-asan", "default-plain", "heap-plain", "usererr-asan", "c89-plain"],
+add("C18", "checks/c18_errquery.c", ["default-asan", "heap-asan", "default-plain", "usererr-asan", "c89-plain"], ["default-asan", "heap-asan", "default-plain", "heap-plain", "usererr-asan", "c89-plain", "optmin-plain"],
     "cases = batches of (code, text, push path, queue situation) -> one SYST:ERR? query each, evaluations = queries judged. "
     "codes: every int16_t code once without text (256 blocks of 256; SCPI_ErrorPush / PushEx(NULL,0) / PushEx(NULL,n)), every 8th also with a text; "
     "lengths: every text length 0..400 x first quote at every position 0..length x 1..3 quotes (adjacent or scattered; thorough: 6 variants incl. punctuation); "
